@@ -7,7 +7,7 @@ use sup::*;
 
 fn be16(a: u8, b: u8) -> u16 { ((a as u16) << 8) | b as u16 }
 
-//# id=decode.total props=C14,C08 kind=complete pair=
+//# id=decode.total fns=ArpPacket::from_bytes props=C14,C08 kind=complete pair=
 #[cfg_attr(kani, kani::proof)]
 #[cfg_attr(vx_replay, test)]
 fn h_arp_decode_total() {
@@ -21,7 +21,7 @@ fn h_arp_decode_total() {
     vx_cover!(r.is_ok());
 }
 
-//# id=decode.reencode props=C08,C14 kind=complete pair=
+//# id=decode.reencode fns=ArpPacket::from_bytes+ArpPacket::build props=C08,C14 kind=complete pair=
 #[cfg_attr(kani, kani::proof)]
 #[cfg_attr(kani, kani::unwind(30))]
 #[cfg_attr(vx_replay, test)]
@@ -43,7 +43,7 @@ fn h_arp_decode_reencode() {
     }
 }
 
-//# id=encode.decode props=C08 kind=complete pair=
+//# id=encode.decode fns=ArpPacket::new_request+ArpPacket::new_reply+ArpPacket::build+ArpPacket::from_bytes props=C08 kind=complete pair=
 #[cfg_attr(kani, kani::proof)]
 #[cfg_attr(kani, kani::unwind(30))]
 #[cfg_attr(vx_replay, test)]
